@@ -575,6 +575,9 @@ func (f *g2lFn) tupleRhs(x *ast.AssignStmt) string {
 		if to == nil {
 			f.fail("`%s`", f.src(x))
 		}
+		if s, ok := f.assertExt(to, r.X); ok { // go2lean_refs.go: interface{} as a sum type
+			return s
+		}
 		want := "Option " + g2lPar(f.lean(to))
 		if got := f.lean(f.typeOf(r.X)); got != want {
 			f.fail("type assertion to %s, but interface{} is configured as %s", f.g.typeKey(to), got)
